@@ -297,6 +297,12 @@ theorem blockTail_rel (cfg : Cfg) (startT : Option Tree) (tn : Option Name) (v :
       · exact h.refl _
       · exact h.refl _
       · split
+        · have hr := condRemove_rel h (truthy tn) tn s3
+          split
+          · rename_i s4 heq; rw [heq] at hr; exact hr
+          · rename_i s4 heq; rw [heq] at hr; exact hr
+        · exact h.refl _
+      · split
         · have hr := condRemove_rel h (truthy tn && env.tbl.quirks.nameMismatchRemoves) tn s3
           split
           · rename_i s4 heq; rw [heq] at hr; exact hr
